@@ -159,7 +159,7 @@ func zoo() []VD {
 		VD{K: "nilptr", S: "slice"},
 		VD{K: "nilptr", S: "map"},
 	)
-	return []VD{a, b, intKeyZoo(), rowZoo(), looseZoo(), zooNode("top", true), vList("ptr", zooNode("ptop", true)), vStr("just a string"), vList("arr2", vList("slice", vInt(1)), zooNode("ia", false))}
+	return []VD{a, b, intKeyZoo(), rowZoo(), looseZoo(), typedMapZoo(), typedMapZooEntry("mapsls"), zooNode("top", true), vList("ptr", zooNode("ptop", true)), vStr("just a string"), vList("arr2", vList("slice", vInt(1)), zooNode("ia", false))}
 }
 
 // exoticZoo holds keys only the quoted bracket form can spell (region of finding kfQuoted).
@@ -442,7 +442,7 @@ func (g genCtx) val(t *rapid.T, depth int) VD {
 		}
 		return l
 	}
-	switch rapid.IntRange(0, 36).Draw(t, "kind") {
+	switch rapid.IntRange(0, 39).Draw(t, "kind") {
 	case 0, 1:
 		return g.val(t, 0)
 	case 2, 3, 4:
@@ -487,6 +487,29 @@ func (g genCtx) val(t *rapid.T, depth int) VD {
 				m[k] = g.val(t, depth-1)
 			} else {
 				m[k] = vStr(fmt.Sprintf("%s%d", kind, i))
+			}
+		}
+		return VD{K: kind, M: m}
+	case 37, 38, 39:
+		kind := rapid.SampledFrom(typedMapKinds).Draw(t, "tmkind")
+		m := map[string]VD{}
+		for i, n := 0, rapid.IntRange(0, 3).Draw(t, "n"); i < n; i++ {
+			k := g.key(t)
+			if rapid.IntRange(0, 5).Draw(t, "nilentry") == 0 {
+				m[k] = vNil()
+				continue
+			}
+			switch kind {
+			case "mapsls":
+				m[k] = vList("strs", vStr("s0"), vStr("s1"))
+			case "mapsla":
+				m[k] = vList("slice", g.val(t, depth-1), g.val(t, 0))
+			case "mapsm":
+				m[k] = vMap("map", map[string]VD{g.key(t): g.val(t, depth-1)})
+			case "mapsli":
+				m[k] = vList("ints", vInt(i), vInt(i+1))
+			default:
+				m[k] = g.node(t, depth-1)
 			}
 		}
 		return VD{K: kind, M: m}
